@@ -190,7 +190,11 @@ impl Report {
         }
         let key = format!("sample:{class}");
         if !self.extra.contains_key(&key) {
-            self.extra.insert(key, v());
+            let val = v();
+            if self.samples.len() < MAX_SAMPLES {
+                self.samples.push(val.clone());
+            }
+            self.extra.insert(key, val);
         }
     }
     pub fn known(&mut self, sig: &str, what: &str) {
